@@ -55,6 +55,24 @@ Fixpoint dom (E : env) (d : desc) (w : pv) {struct d} : bool :=
   | DPrefixList vals => str_in vals w                                             (* a member (completed prefix) *)
   | DPrefixMap m => str_in (map fst m) w
   | DCompound ds | DUnion ds => existsb (fun a => dom E a w) ds
+  | DRangeDyn _ _ _ => match w with PInt _ => true | _ => false end               (* an int; the bounds move: see dyn_range_in_bounds *)
+  | DProperty d' => dom E d' w                                                    (* the property's trait *)
+  | DList d' mn mx =>                                  (* a list within the length bounds whose items lie in the item trait's domain *)
+      match w with
+      | PList ws => (mn <=? Z.of_nat (length ws)) && (Z.of_nat (length ws) <=? mx) && forallb (dom E d') ws
+      | _ => false
+      end
+  | DVTuple ds fv =>                                   (* exact tuple, member by member, passing the custom validation *)
+      match w with
+      | PTuple ws =>
+          (fix go (ds : list desc) (ws : list pv) : bool :=
+             match ds, ws with
+             | [], [] => true
+             | a :: ds', x :: ws' => dom E a x && go ds' ws'
+             | _, _ => false
+             end) ds ws && fv_ok E fv w
+      | _ => false
+      end
   | DArray dt shape _ =>                                                          (* dtype and shape *)
       match w with
       | PArray k sh _ => match dt with Some t => k =? t | None => true end
@@ -111,6 +129,30 @@ Fixpoint conv_ok (E : env) (d : desc) (v w : pv) {struct d} : bool :=
       | _, _ => false
       end
   | DCompound ds | DUnion ds => existsb (fun a => conv_ok E a v w) ds
+  | DProperty d' => conv_ok E d' v w
+  | DRangeDyn _ _ _ => match cast_int v with Returns x => pv_eqb w x | Raises _ => false end     (* type(low)(value) *)
+  | DList d' _ _ =>                                    (* a new list of the converted items *)
+      match v, w with
+      | PList vs, PList ws =>
+          (fix go (vs ws : list pv) : bool :=
+             match vs, ws with
+             | [], [] => true
+             | x :: vs', y :: ws' => conv_ok E d' x y && go vs' ws'
+             | _, _ => false
+             end) vs ws
+      | _, _ => false
+      end
+  | DVTuple ds _ =>                                    (* tuple(list) accepted; members converted one by one *)
+      match seq_items v, w with
+      | Some vs, PTuple ws =>
+          (fix go (ds : list desc) (vs ws : list pv) : bool :=
+             match ds, vs, ws with
+             | [], [], [] => true
+             | a :: ds', x :: vs', y :: ws' => conv_ok E a x y && go ds' vs' ws'
+             | _, _, _ => false
+             end) ds vs ws
+      | _, _ => false
+      end
   | DArray dt _ _ =>                          (* the array itself, or what numpy's asarray / astype made of it *)
       match v with
       | PArray k _ _ =>
